@@ -20,8 +20,10 @@ static void load_kf_file(Ctx& ctx, const char* path)
     ctx.kfs.push_back(k); }
   fclose(f);
 }
+void grid_register(); void grid_register2();
 extern "C" int LLVMFuzzerInitialize(int*, char***)
 {
+  grid_register(); grid_register2();
   g_fuzz_mode = true;
   g_ctx = new Ctx(); Cut c; c.name = cut_config(); c.path = "(static)"; c.table = cut_table(&c.n);
   if (c.n != E_COUNT) { fprintf(stderr, "fuzz: entry count mismatch\n"); abort(); }
